@@ -150,6 +150,17 @@ def confirm(entry, sv, missing):
     except Exception as e:  # noqa: BLE001
         return {"confirmed": False, "reason": f"instantiated form does not compile: {type(e).__name__}: {e}"[:300]}
     ids = {n.id for n in ast.walk(tree) if isinstance(n, ast.Name)}
+    # a name that sits in the AST but in a place CPython never compiles (an annotation of a lambda parameter) is lost all the same:
+    # take the names from the code objects when the module compiles
+    try:
+        names, todo = set(), [compile(tree, "<hv-c11-replay>", "exec")]
+        while todo:
+            co = todo.pop()
+            names.update(co.co_names, co.co_varnames, co.co_freevars, co.co_cellvars)
+            todo.extend(c for c in co.co_consts if isinstance(c, types.CodeType))
+        ids &= names
+    except Exception:  # noqa: BLE001
+        pass
     lost = []
     for m in missing:
         if m.startswith("variable "):
